@@ -22,6 +22,7 @@ template <class T> static void run_T(Choice &c, Ctx &cx)
     cx.label(P.ilu ? "factor=ILU" : "factor=LU"); if (P.m > P.n) cx.label("tall");
     if (cx.is_known("F-SS") && maybe_exactly_singular(G)) { cx.exclude("F-SS"); cx.label("exactly-singular(excluded)"); return; }
     unsigned char heapfill = cx.fill(0xA5);
+    if (!cx.is_known("F04")) vf_nofork_flag() = true;     // finding F04 (workspace crashes / hangs) is fixed: no isolation needed
     FactorOutcome b = factor_once<T>(P, cfgs[0], heapfill, true);
     auto report = [&](const FactorOutcome &o, const StorageCfg &cf) -> bool {
         if (o.aborted) { cx.fail("abort", fmt("[%s] library called ABORT: %s", cf.str().c_str(), o.abort_msg.c_str())); return false; }
